@@ -1,11 +1,333 @@
 package main
 
-import "verifharness/hx"
+import (
+	"fmt"
+	"strconv"
+	"strings"
+	"sync"
+	"sync/atomic"
+	"time"
 
+	"verifharness/hx"
+
+	"github.com/iotaledger/hive.go/runtime/workerpool"
+)
+
+// gnode is a node of a real Group tree: a group or a pool with the gates of its unfinished tasks (FIFO).
+type gnode struct {
+	parent int
+	group  *workerpool.Group
+	pool   *workerpool.WorkerPool
+	gates  []chan struct{}
+}
+
+func (n *gnode) value() int {
+	if n.pool != nil {
+		return n.pool.PendingTasksCounter.Get()
+	}
+
+	return n.group.PendingChildrenCounter.Get()
+}
+
+type gtree struct {
+	nodes []*gnode
+}
+
+func (t *gtree) values() string {
+	var b strings.Builder
+	b.WriteString("[")
+	for i, n := range t.nodes {
+		if i > 0 {
+			b.WriteString(" ")
+		}
+		b.WriteString(strconv.Itoa(n.value()))
+	}
+	b.WriteString("]")
+
+	return b.String()
+}
+
+func (t *gtree) isGroup(i int) bool { return i >= 0 && i < len(t.nodes) && t.nodes[i].group != nil }
+func (t *gtree) isPool(i int) bool  { return i >= 0 && i < len(t.nodes) && t.nodes[i].pool != nil }
+
+// below: node q lies below group g.
+func (t *gtree) below(g, q int) bool {
+	for p := t.nodes[q].parent; p >= 0; p = t.nodes[p].parent {
+		if p == g {
+			return true
+		}
+	}
+
+	return false
+}
+
+// oracle: every group's counter is the number of its children with a non-zero counter.
+func (t *gtree) check(r *result, after string) {
+	for g, n := range t.nodes {
+		if n.group == nil {
+			continue
+		}
+		nz := 0
+		for _, c := range t.nodes {
+			if c.parent == g && c.value() != 0 {
+				nz++
+			}
+		}
+		if v := n.value(); v != nz {
+			r.fail("group-counter", fmt.Sprintf("after '%s': group %d has PendingChildrenCounter=%d but %d children with pending work; values=%s", after, g, v, nz, t.values()),
+				map[string]string{"api": "workerpool.Group", "effect": "children-counter-wrong"})
+		}
+	}
+}
+
+func (t *gtree) exec(r *result, op string) string {
+	f := strings.Fields(op)
+	if len(f) != 3 || f[0] != "g" {
+		return "bad-op"
+	}
+	a, err := strconv.Atoi(f[2])
+	if err != nil {
+		a = -1
+	}
+	name := fmt.Sprintf("n%d", len(t.nodes))
+	switch f[1] {
+	case "newgroup":
+		if f[2] == "-" {
+			t.nodes = append(t.nodes, &gnode{parent: -1, group: workerpool.NewGroup(name)})
+		} else if t.isGroup(a) {
+			t.nodes = append(t.nodes, &gnode{parent: a, group: t.nodes[a].group.CreateGroup(name)})
+		} else {
+			return "skip"
+		}
+	case "newpool":
+		if !t.isGroup(a) {
+			return "skip"
+		}
+		t.nodes = append(t.nodes, &gnode{parent: a, pool: t.nodes[a].group.CreatePool(name, workerpool.WithWorkerCount(2))})
+	case "inc":
+		if !t.isPool(a) {
+			return "skip"
+		}
+		gate := make(chan struct{})
+		t.nodes[a].pool.Submit(func() { <-gate })
+		t.nodes[a].gates = append(t.nodes[a].gates, gate)
+	case "dec":
+		if !t.isPool(a) || len(t.nodes[a].gates) == 0 {
+			return "skip"
+		}
+		n := t.nodes[a]
+		want := n.pool.PendingTasksCounter.Get() - 1
+		close(n.gates[0])
+		n.gates = n.gates[1:]
+		if !waitFor(bound, func() bool { return n.pool.PendingTasksCounter.Get() == want }) {
+			r.fail("termination", "released task did not finish", map[string]string{"api": "workerpool.Group", "effect": "task-not-finished"})
+		}
+	case "wait":
+		if !t.isGroup(a) {
+			return "bad-op"
+		}
+		ret := within(40*time.Millisecond, t.nodes[a].group.WaitChildren)
+		if ret {
+			for q, n := range t.nodes {
+				if t.below(a, q) && n.value() != 0 {
+					r.fail("group-wait", fmt.Sprintf("WaitChildren of group %d returned while node %d below it has counter %d", a, q, n.value()),
+						map[string]string{"api": "workerpool.Group.WaitChildren", "effect": "returned-with-pending-below"})
+				}
+			}
+
+			return "returns"
+		}
+
+		return "blocks"
+	default:
+		return "bad-op"
+	}
+	t.check(r, op)
+
+	return "ok " + t.values()
+}
+
+func (t *gtree) finish(r *result) {
+	for _, n := range t.nodes {
+		for _, g := range n.gates {
+			close(g)
+		}
+		n.gates = nil
+	}
+	for i, n := range t.nodes {
+		if n.group != nil && n.parent < 0 {
+			if !within(bound, n.group.Shutdown) {
+				r.fail("termination", fmt.Sprintf("Group.Shutdown of root %d did not return", i), map[string]string{"api": "workerpool.Group.Shutdown", "effect": "hang"})
+			}
+		}
+	}
+	for i, n := range t.nodes {
+		if n.pool != nil {
+			t0 := time.Now()
+			if !withinPool(n.pool, func() time.Duration { return time.Since(t0) }, bound, n.pool.ShutdownComplete.Wait) {
+				sig := classifyPool(n.pool, "complete")
+				sig["via"] = "Group.Shutdown"
+				r.fail("termination", fmt.Sprintf("pool %d: ShutdownComplete.Wait did not return after Group.Shutdown; %v", i, sig), sig)
+			}
+		}
+	}
+}
+
+func genGroupOps(rng *hx.Rng, n int) []string {
+	ops := []string{"g newgroup -"}
+	kinds := []bool{true} // true = group
+	pend := []int{0}
+	for len(ops) < n {
+		groups, pools := []int{}, []int{}
+		for i, k := range kinds {
+			if k {
+				groups = append(groups, i)
+			} else {
+				pools = append(pools, i)
+			}
+		}
+		switch x := rng.Intn(100); {
+		case x < 8 && len(kinds) < 12:
+			ops = append(ops, fmt.Sprintf("g newgroup %d", hx.Pick(rng, groups)))
+			kinds, pend = append(kinds, true), append(pend, 0)
+		case x < 20 && len(kinds) < 12 || len(pools) == 0:
+			ops = append(ops, fmt.Sprintf("g newpool %d", hx.Pick(rng, groups)))
+			kinds, pend = append(kinds, false), append(pend, 0)
+		case x < 55:
+			q := hx.Pick(rng, pools)
+			ops = append(ops, fmt.Sprintf("g inc %d", q))
+			pend[q]++
+		case x < 85:
+			q := hx.Pick(rng, pools)
+			if pend[q] > 0 {
+				pend[q]--
+			}
+			ops = append(ops, fmt.Sprintf("g dec %d", q)) // also emitted at zero: both sides must skip
+		default:
+			ops = append(ops, fmt.Sprintf("g wait %d", hx.Pick(rng, groups)))
+		}
+	}
+
+	return ops
+}
+
+// groupStress: a tree of pools whose tasks submit tasks to other pools; after all external submissions returned,
+// WaitChildren on the root must only return when every pool is idle and every accepted task has run.
+func groupStress(r *result, seed uint64) {
+	rng := hx.NewRng(seed)
+	root := workerpool.NewGroup("root")
+	var pools []*workerpool.WorkerPool
+	for g := 0; g < 2; g++ {
+		sub := root.CreateGroup(fmt.Sprintf("g%d", g))
+		if rng.Bool() {
+			sub = sub.CreateGroup("deep")
+		}
+		for p := 0; p < 2; p++ {
+			pools = append(pools, sub.CreatePool(fmt.Sprintf("p%d", p), workerpool.WithWorkerCount(rng.Range(1, 3))))
+		}
+	}
+	var submitted, ran atomic.Int64
+	var submit func(depth int, rs *hx.Rng)
+	var mu sync.Mutex
+	submit = func(depth int, rs *hx.Rng) {
+		mu.Lock()
+		pool := hx.Pick(rs, pools)
+		kids := 0
+		if depth > 0 {
+			kids = rs.Intn(3)
+		}
+		sub, _ := rs.Fork()
+		mu.Unlock()
+		submitted.Add(1)
+		pool.Submit(func() {
+			for i := 0; i < kids; i++ {
+				submit(depth-1, sub)
+			}
+			ran.Add(1)
+		})
+	}
+	var wg sync.WaitGroup
+	for s := 0; s < 3; s++ {
+		rs, _ := rng.Fork()
+		n := rng.Range(1, 20)
+		wg.Add(1)
+		go func() {
+			defer wg.Done()
+			for i := 0; i < n; i++ {
+				submit(3, rs)
+			}
+		}()
+	}
+	wg.Wait()
+	if !within(bound, root.WaitChildren) {
+		r.fail("termination", "root.WaitChildren did not return", map[string]string{"api": "workerpool.Group.WaitChildren", "effect": "hang"})
+
+		return
+	}
+	for i, p := range pools {
+		if v := p.PendingTasksCounter.Get(); v != 0 {
+			r.fail("group-wait", fmt.Sprintf("root.WaitChildren returned while pool %d has %d pending tasks", i, v),
+				map[string]string{"api": "workerpool.Group.WaitChildren", "effect": "returned-with-pending-below"})
+		}
+	}
+	if s, d := submitted.Load(), ran.Load(); s != d {
+		r.fail("group-wait", fmt.Sprintf("root.WaitChildren returned after %d of %d submitted tasks ran", d, s),
+			map[string]string{"api": "workerpool.Group.WaitChildren", "effect": "returned-with-unfinished-tasks"})
+	}
+	r.counts["group-stress-tasks"] += int(submitted.Load())
+	if !within(bound, root.Shutdown) {
+		r.fail("termination", "root.Shutdown did not return", map[string]string{"api": "workerpool.Group.Shutdown", "effect": "hang"})
+	}
+	for i, p := range pools {
+		t0 := time.Now()
+		if !withinPool(p, func() time.Duration { return time.Since(t0) }, bound, p.ShutdownComplete.Wait) {
+			sig := classifyPool(p, "complete")
+			sig["via"] = "Group.Shutdown"
+			r.fail("termination", fmt.Sprintf("pool %d not complete after Group.Shutdown; %v", i, sig), sig)
+		}
+	}
+}
+
+// runGroup executes "group seq SEED N" (sequential differential script) or "group stress SEED".
 func runGroup(line string) *result {
 	r := newResult()
+	f := strings.Fields(line)
 	r.lines = append(r.lines, [2]string{line, "ok"})
+	if len(f) < 3 {
+		return r
+	}
+	seed, _ := strconv.ParseUint(f[2], 10, 64)
+	switch f[1] {
+	case "seq":
+		n := 30
+		if len(f) > 3 {
+			n, _ = strconv.Atoi(f[3])
+		}
+		t := &gtree{}
+		ops := genGroupOps(hx.NewRng(seed), n)
+		for _, op := range ops {
+			r.lines = append(r.lines, [2]string{op, t.exec(r, op)})
+			r.count("g:" + strings.Fields(op)[1])
+		}
+		t.finish(r)
+		r.nontriv = line
+	case "stress":
+		groupStress(r, seed)
+		r.count("g:stress")
+		r.nontriv = line
+	}
+
 	return r
 }
-func groupCorpus() []string       { return nil }
-func genGroup(rng *hx.Rng) string { return "group stub" }
+
+func groupCorpus() []string {
+	return []string{"group seq 1 40", "group seq 2 60", "group stress 1", "group stress 2"}
+}
+
+func genGroup(rng *hx.Rng) string {
+	if rng.Bool() {
+		return fmt.Sprintf("group stress %d", rng.U64()%1000000)
+	}
+
+	return fmt.Sprintf("group seq %d %d", rng.U64()%1000000, rng.Range(20, 80))
+}
